@@ -260,8 +260,9 @@ func specHasHandler(op string) bool { _, ok := opcodeEvalFns[op]; return ok }
 //@ func processNoParam
 //@ props C03 C07
 //@ requires env != nil && env.Client != nil
-//@ ensures[loc@C03] env.LOC == old(env.LOC)+1
-//@ ensures[emit@C07] vcCalled("Emit")
+//@ ensures[loc@C03] len(operands) == 0 ==> env.LOC == old(env.LOC)+1
+//@ ensures[emit@C07] len(operands) == 0 ==> vcCalled("Emit")
+//@ ensures[count@C07] len(operands) != 0 ==> vcLoggedError() && !vcCalled("Emit") && env.LOC == old(env.LOC)
 //@ assigns Pass1.LOC, ocodeClient.Ocodes
 
 // INT n is emitted as CD ib - two bytes for every n (codegen handleINT.ensures.enc); RET is one byte
@@ -279,8 +280,9 @@ func specHasHandler(op string) bool { _, ok := opcodeEvalFns[op]; return ok }
 //@ func processRET
 //@ props C03 C07
 //@ requires env != nil && env.Client != nil
-//@ ensures[loc@C03] env.LOC == old(env.LOC)+1
-//@ ensures[emit@C07] vcCalled("Emit")
+//@ ensures[loc@C03] len(operands) == 0 ==> env.LOC == old(env.LOC)+1
+//@ ensures[emit@C07] len(operands) == 0 ==> vcCalled("Emit")
+//@ ensures[count@C07] len(operands) != 0 ==> vcLoggedError() && !vcCalled("Emit") && env.LOC == old(env.LOC)
 //@ assigns Pass1.LOC, ocodeClient.Ocodes
 
 //@ func processLGDT
